@@ -645,6 +645,37 @@ func derivedLaws3(r *vlib.Run) {
 		check("MapCoords.merge", mesh.MapCoords(round), mapTris(want, round))
 		collapse := func(p C3) C3 { return model3d.XYZ(0, 0, 0) }
 		check("MapCoords.collapse", mesh.MapCoords(collapse), mapTris(want, collapse))
+		// A mapping function with state (per-vertex noise, a counter): the derived mesh must not depend
+		// on whether the source's lazy index happened to exist, i.e. the function is applied once per
+		// distinct vertex in both cases and shared vertices stay shared.
+		{
+			nv := len(mod.vertices())
+			for _, built := range []bool{false, true} {
+				src := model3d.NewMeshTriangles(append([]*model3d.Triangle{}, mod.faces...))
+				if built {
+					src.VertexSlice()
+				}
+				calls := 0
+				noisy := func(p C3) C3 {
+					calls++
+					return model3d.XYZ(float64(calls), p.Y*0, p.Z*0)
+				}
+				got := src.MapCoords(noisy)
+				c.Count("derived3d.MapCoords.stateful", 1)
+				gv := map[C3]bool{}
+				for _, t := range vlib.Tris(got) {
+					for _, q := range t {
+						gv[q] = true
+					}
+				}
+				if calls != nv || len(gv) != nv {
+					c.Violation("model3d.Mesh.MapCoords/once-per-vertex-whatever-the-index-state",
+						fmt.Sprintf("source has %d distinct vertices (index built before: %v): mapping function called %d times, derived mesh has %d distinct vertices", nv, built, calls, len(gv)),
+						map[string]interface{}{"input": fmtFaces(mod.faces), "pool": kind})
+					break
+				}
+			}
+		}
 		if kind != "extreme" {
 			rot := model3d.Rotation(model3d.XYZ(rng.NormFloat64(), rng.NormFloat64(), rng.NormFloat64()).Normalize(), rng.Float64()*6)
 			check("Transform", mesh.Transform(rot), mapTris(want, rot.Apply))
